@@ -46,6 +46,8 @@ def cases(tier, seed):
     for i, x in enumerate(qs):
         for y in qs[i + 1 :]:
             specs.append({"id": "e:%s,%s" % (x[1], y[1]), "pairs": [[x, y]], "cost": 30})
+    for a, b in (("c16", "c16near"), ("lens", "lens2"), ("c4", "fcap"), ("scub", "ftri")):
+        specs.append({"id": "e2:%s,%s" % (a, b), "pairs": [[progs.L("Q." + a), progs.L("Q." + b)]], "cost": 30})
     for x, y in progs.numeric_pairs(tier):
         specs.append({"id": "d:%s,%s" % (al.expr_id(x), al.expr_id(y)), "pairs": [[x, y]]})
     n1, n2, n3, n4, n5 = (progs.L("N.N%d#int" % i) for i in range(1, 6))
